@@ -4,6 +4,7 @@ import json
 import re
 
 from .. import pm
+from ..cfg import facts_at
 from ..pm import U
 from ..ppgrammar import Grammar, find_named, may_be_hex, names_tree, terminals
 from ..report import VERIF
@@ -15,46 +16,125 @@ def _spec(name, cls):
 
 
 # ------------------------------------------------------------------------------- R1 / R2 (BaseParser)
-def r1_numbering(ctx):
-    ctx.rule("R1", "line numbers are 1-based positions among ALL physical lines; blank lines are skipped, not renumbered")
+def _blank_fact(e, pol, line):
+    """Is (e, pol) the fact `line is not blank`?  Accepted spellings of the blank test are enumerated."""
+    t = U(e)
+    blank_true = (C.canon_eq("%s.strip()" % line, "''"), "len(%s.strip()) == 0" % line, "not %s.strip()" % line,
+                  "%s.isspace() or not %s" % (line, line), "not %s or %s.isspace()" % (line, line))
+    blank_false = (C.canon_eq("%s.strip()" % line, "''", "!="), "%s.strip()" % line, "len(%s.strip()) > 0" % line,
+                   "len(%s.strip()) != 0" % line, "len(%s.strip())" % line)
+    return (t in blank_true and not pol) or (t in blank_false and pol)
+
+
+def r1_numbering(ctx, rule="R1"):
+    """The number handed to parse_line is derived symbolically: idx = 0-based position of the line in
+    content.split('\\n'), either from enumerate (minus its start) or from a counter that is provably
+    incremented once in every iteration; the rule is number == idx + 1 + start_line."""
+    ctx.rule(rule, "line numbers are 1-based positions among ALL physical lines; blank lines are skipped, not renumbered")
     f = ctx.func("BaseParser.parse_file")
     content, start = f.params()[1], f.params()[2]
-    sp = pm.find("M_l = %s.split('\\n')" % content, f.node) + pm.find("M_l = %s.splitlines()" % content, f.node)
-    if not sp:
-        ctx.bad("R1", "line split", f.where(), "the file is not split into physical lines with split('\\n')", f.qname, "line split")
-        return
-    lines = U(sp[0][1]["M_l"])
-    loops = [n for n in ast.walk(f.node) if isinstance(n, ast.For) and C.is_call_to(n.iter, "enumerate") and U(n.iter.args[0]) == lines]
-    if len(loops) != 1 or not isinstance(loops[0].target, ast.Tuple):
-        ctx.bad("R1", "enumerate over all lines", f.where(), "lines are not visited with enumerate(%s): %s" % (
-            lines, [U(n.iter) for n in ast.walk(f.node) if isinstance(n, ast.For)]), f.qname, "enumerate all lines")
-        return
-    l = loops[0]
-    i, line = U(l.target.elts[0]), U(l.target.elts[1])
-    st = C.arg_of(l.iter, 1, "start")
-    base = C.const_num(st) if st is not None else 0
-    calls = C.calls_to(l, "parse_line")
-    ok = False
-    if len(calls) == 1 and len(calls[0].args) == 2:
-        aff = C.affine(calls[0].args[1])
-        ok = aff == {i: 1, start: 1, 1: 1 - base} and U(calls[0].args[0]) == line
-    ctx.check(ok, "R1", "parse_line(line, i + 1 + start_line)", f.where(calls[0]) if calls else f.where(l),
-              "the line number handed to parse_line is `%s` (enumerate start %s): it must be the 1-based position of the "
-              "physical line (+ start_line)" % (U(calls[0].args[1]) if calls and len(calls[0].args) > 1 else None, base), f.qname,
-              "line number expression")
-    skip = [n for n in l.body if isinstance(n, ast.If) and U(n.test) in ("%s.strip() == ''" % line, "not %s.strip()" % line)
-            and any(isinstance(s, ast.Continue) for s in n.body)]
     cfg = C.cfg_of(f)
-    ctx.check(len(skip) == 1 and bool(calls) and cfg.dominates(skip[0], calls[0]), "R1", "blank lines are skipped inside the numbered loop",
-              f.where(l), "blank lines are not skipped by `if line.strip() == '': continue` inside the enumerate loop (filtering "
-              "them before numbering shifts every later line number)", f.qname, "blank skip")
-    pre = [n for n in ast.walk(f.node) if isinstance(n, (ast.ListComp, ast.Call)) and not C.in_subtree(n, l)
-           and ("strip()" in U(n) and lines in U(n) and isinstance(n, ast.ListComp))]
-    ctx.check(not pre, "R1", "the line list is not filtered before numbering", f.where(),
-              "the line list is filtered/rewritten before enumeration: %s" % [U(p)[:60] for p in pre], f.qname, "no pre-filter")
-    app = pm.find("M_r.append(self.parse_line(M__, M__))", l)
+    calls = C.calls_to(f.node, "parse_line")
+    if len(calls) != 1 or len(calls[0].args) + len(calls[0].keywords) != 2:
+        ctx.broken(rule + ": expected exactly one parse_line(line, number) call in parse_file, found %d" % len(calls))
+        return
+    call = calls[0]
+    num = C.arg_of(call, 1, "line_number")
+    loop = C.enclosing_loop(call)
+    if not isinstance(loop, ast.For):
+        ctx.bad(rule, "line loop", f.where(call), "parse_line is not called from a for loop over the physical lines", f.qname, "line loop")
+        return
+    # ---- iteration shape: which variable is the line, what is its 0-based index ------------------------
+    it, idx, line = loop.iter, None, None      # idx: affine map of the 0-based index
+    if C.is_call_to(it, "enumerate") and isinstance(loop.target, ast.Tuple) and len(loop.target.elts) == 2:
+        st = C.arg_of(it, 1, "start")
+        i, line = U(loop.target.elts[0]), U(loop.target.elts[1])
+        idx = {i: 1, 1: 0}
+        if st is not None:
+            for k, v in C.affine(st).items():
+                idx[k] = idx.get(k, 0) - v
+        seq = it.args[0] if it.args else None
+    elif isinstance(loop.target, ast.Name):
+        line, seq = loop.target.id, it
+    else:
+        ctx.bad(rule, "line loop", f.where(loop), "lines are not visited with `for line in ...` / `for i, line in enumerate(...)`: %s" % U(it)[:80],
+                f.qname, "line loop")
+        return
+    # ---- the sequence is content.split('\n'), nothing removed or filtered before numbering -------------
+    seq_expr = seq
+    if isinstance(seq, ast.Name):
+        defs = [a for a in C.assigns_to(f.node, seq.id) if not C.in_subtree(a, loop)]
+        if len(defs) != 1 or not isinstance(defs[0], ast.Assign):
+            ctx.broken(rule + ": the line list %r is assigned %d times - idiom not understood" % (seq.id, len(defs)))
+            return
+        seq_expr = defs[0].value
+    split_ok, why = False, "the file is not split into physical lines with split('\\n'): `%s`" % U(seq_expr)[:80]
+    if (isinstance(seq_expr, ast.Call) and isinstance(seq_expr.func, ast.Attribute) and seq_expr.func.attr == "split"
+            and len(seq_expr.args) == 1 and isinstance(seq_expr.args[0], ast.Constant) and seq_expr.args[0].value == "\n"):
+        recv = seq_expr.func.value
+        if isinstance(recv, ast.Name) and recv.id == content:
+            split_ok = True
+        elif (isinstance(recv, ast.Call) and isinstance(recv.func, ast.Attribute) and recv.func.attr == "rstrip"
+              and U(recv.func.value) == content):
+            split_ok = True     # removing trailing characters does not move any line
+        else:
+            why = ("the text is rewritten before it is split (`%s`): removing or merging leading lines shifts every line number"
+                   % U(recv)[:80])
+    ctx.check(split_ok, rule, "line split", f.where(seq_expr), why, f.qname, "line split")
+    if not split_ok:
+        return
+    # ---- counter form: a local incremented once per iteration ------------------------------------------
+    numaff = C.affine(num)
+    if idx is None:
+        cands = [n for n in ast.walk(loop) if isinstance(n, ast.AugAssign) and isinstance(n.target, ast.Name)
+                 and n.target.id in numaff and isinstance(n.op, ast.Add) and C.const_num(n.value) == 1]
+        if len(cands) != 1 or C.enclosing_loop(cands[0]) is not loop:
+            ctx.bad(rule, "line number expression", f.where(call), "the line number `%s` is neither derived from enumerate() nor from a "
+                    "counter incremented by one per physical line" % U(num), f.qname, "line number expression")
+            return
+        inc = cands[0]
+        k = inc.target.id
+        every = not cfg.reachable(loop, loop, avoid=[inc], within=loop)
+        ctx.check(every, rule, "the line counter counts every physical line", f.where(inc),
+                  "the counter `%s` is not incremented on every iteration (an iteration can return to the loop head without passing "
+                  "`%s`): skipped lines are not counted, every later line number is too small" % (k, U(inc)), f.qname, "counter every line")
+        if not every:
+            return
+        inits = [a for a in C.assigns_to(f.node, k) if a is not inc]
+        if len(inits) != 1 or C.in_subtree(inits[0], loop) or not isinstance(inits[0], ast.Assign):
+            ctx.broken(rule + ": counter %r is initialised %d times - idiom not understood" % (k, len(inits)))
+            return
+        idx = {"<idx>": 1}
+        for kk, v in C.affine(inits[0].value).items():
+            idx[kk] = idx.get(kk, 0) + v
+        idx[1] = idx.get(1, 0) + (1 if cfg.dominates(inc, call) else 0)
+        # number = f(K) with K = K0 + idx (+1): substitute
+        coeff = numaff.pop(k)
+        for kk, v in idx.items():
+            numaff[kk] = numaff.get(kk, 0) + coeff * v
+        want = {"<idx>": 1, start: 1, 1: 1}
+    else:
+        # number in terms of i; idx = i - S  =>  number must equal (i - S) + 1 + start
+        want = dict(idx)
+        want[start] = want.get(start, 0) + 1
+        want[1] = want.get(1, 0) + 1
+    norm = lambda m: {k: v for k, v in m.items() if v != 0}
+    ctx.check(norm(numaff) == norm(want) and U(C.arg_of(call, 0, "line")) == line, rule, "parse_line(line, index + 1 + start_line)",
+              f.where(call), "the line number handed to parse_line is `%s`: it must be the 1-based position of the physical line "
+              "(+ start_line); derived %s, required %s" % (U(num), norm(numaff), norm(want)), f.qname, "line number expression")
+    # ---- only blank lines are skipped, inside the numbered loop -----------------------------------------
+    facts = facts_at(call, stop=loop)
+    nonblank = [fa for fa in facts if _blank_fact(fa[0], fa[1], line)]
+    ctx.check(bool(nonblank), rule, "blank lines are skipped inside the numbered loop", f.where(loop),
+              "blank lines are not skipped by a blank test on `%s.strip()` inside the numbered loop (facts at the call: %s)"
+              % (line, [("" if pol else "not ") + U(e) for e, pol in facts]), f.qname, "blank skip")
+    other = [fa for fa in facts if not _blank_fact(fa[0], fa[1], line)]
+    ctx.check(not other, rule, "no non-blank line is skipped", f.where(call),
+              "parse_line is only reached under %s: non-blank lines can be dropped" % [("" if pol else "not ") + U(e) for e, pol in other],
+              f.qname, "no other skip")
+    app = pm.find("M_r.append(self.parse_line(M__, M__))", loop)
     rets = [r for r in ast.walk(f.node) if isinstance(r, ast.Return)]
-    ctx.check(bool(app) and len(rets) == 1 and U(rets[0].value) == U(app[0][1]["M_r"]), "R1",
+    ctx.check(bool(app) and len(rets) == 1 and U(rets[0].value) == U(app[0][1]["M_r"]), rule,
               "exactly one parsed line per non-blank line, in file order", f.where(),
               "parsed lines are not appended one per non-blank line and returned", f.qname, "one result per line")
 
@@ -470,3 +550,66 @@ def t_terminals(ctx, cls, gr):
                       "property promises to recover: lines containing it cannot be parsed as written" % (var, ex), gr.func.qname,
                       "%s rejects %r" % (var, ex))
     ctx.floor("T", "token examples", n, 60)
+
+
+# ------------------------------------------------------------------------------- R7 presence tests
+def _key_of_read(e):
+    """Key K when `e` reads a string key: X['K'] or X.get('K'[, d])."""
+    if isinstance(e, ast.Subscript) and isinstance(e.slice, ast.Constant) and isinstance(e.slice.value, str):
+        return e.slice.value
+    if (isinstance(e, ast.Call) and isinstance(e.func, ast.Attribute) and e.func.attr == "get" and e.args
+            and isinstance(e.args[0], ast.Constant) and isinstance(e.args[0].value, str)):
+        return e.args[0].value
+    return None
+
+
+def r7_presence(ctx, cls, rule="R7"):
+    """A field that package code fills with a number (X['K'] = int(...)) can legitimately be 0; testing its presence by
+    truthiness (`X.get('K') or None`, `v if v else None`) drops that value. Presence must be tested with `in` / `is None`."""
+    ctx.rule(rule, "presence of an optional numeric field is tested with `in` / `is None`, never by truthiness (0 is a value)")
+    funcs = [f for f in ctx.repo.all_funcs() if f.cls is not None and f.cls.name == cls]
+    numeric = {}
+    for f in funcs:
+        for n in ast.walk(f.node):
+            if isinstance(n, ast.Assign) and len(n.targets) == 1:
+                k = _key_of_read(n.targets[0]) if isinstance(n.targets[0], ast.Subscript) else None
+                v = n.value
+                if k and (C.is_call_to(v, "int", "float") or C.const_num(v) is not None):
+                    numeric.setdefault(k, "%s (%s)" % (U(n)[:60], f.where(n)))
+    ctx.extra.setdefault("numeric_fields", {})[cls] = sorted(numeric)
+    count = 0
+    for f in funcs:
+        ctx.touch(f)
+        # locals that hold a raw read of a numeric key
+        holders = {}
+        for n in ast.walk(f.node):
+            if isinstance(n, ast.Assign) and len(n.targets) == 1 and isinstance(n.targets[0], ast.Name):
+                k = _key_of_read(n.value)
+                if k in numeric:
+                    holders.setdefault(n.targets[0].id, k)
+        def key_in_truth_position(e):
+            k = _key_of_read(e)
+            if k in numeric:
+                return k
+            if isinstance(e, ast.Name) and e.id in holders and len(C.assigns_to(f.node, e.id)) == 1:
+                return holders[e.id]
+            if isinstance(e, ast.UnaryOp) and isinstance(e.op, ast.Not):
+                return key_in_truth_position(e.operand)
+            return None
+        for n in ast.walk(f.node):
+            tests = []
+            if isinstance(n, ast.BoolOp):
+                tests = n.values[:-1] if isinstance(n.op, ast.Or) else n.values[:-1]
+            elif isinstance(n, (ast.IfExp, ast.If, ast.While)):
+                t = n.test
+                tests = t.values if isinstance(t, ast.BoolOp) else [t]
+            for t in tests:
+                k = key_in_truth_position(t)
+                if k is None:
+                    continue
+                count += 1
+                ctx.node_bad(rule, f, n, "`%s` tests the field '%s' by truthiness, but the package stores numbers in it (%s): "
+                             "the legitimate value 0 is treated as absent and dropped from the operand" % (U(t), k, numeric[k]))
+    for k in sorted(numeric):
+        ctx.ok(rule, "field '%s' is never presence-tested by truthiness" % k, "", numeric[k])
+    return len(numeric)
